@@ -26,7 +26,7 @@ func VerifC13Interleaved() {
 
 type c13Obs struct{ sdps, rtps, avs int }
 
-func (o *c13Obs) OnSdp(sdpCtx sdp.LogicContext)    { o.sdps++ }
+func (o *c13Obs) OnSdp(sdpCtx sdp.LogicContext)     { o.sdps++ }
 func (o *c13Obs) OnRtpPacket(pkt rtprtcp.RtpPacket) { o.rtps++ }
 func (o *c13Obs) OnAvPacket(pkt base.AvPacket)      { o.avs++ }
 
@@ -42,12 +42,29 @@ const c13SdpHevcPcm = "v=0\r\no=- 0 0 IN IP4 127.0.0.1\r\ns=No Name\r\nc=IN IP4 
 	"m=video 0 RTP/AVP 98\r\na=rtpmap:98 H265/90000\r\na=fmtp:98 sprop-vps=QAEMAf//AWAAAAMAkAAAAwAAAwA/ugJA; sprop-sps=QgEBAWAAAAMAkAAAAwAAAwA/oAUCAXHy5bpKTC8BAQAAAwABAAADAA8I; sprop-pps=RAHAc8GJ\r\na=control:streamid=0\r\n" +
 	"m=audio 0 RTP/AVP 8\r\na=rtpmap:8 PCMA/8000\r\na=control:streamid=1\r\n"
 
+// further descriptions a peer may send: each is parsed by lal's own SDP parser (concretely) before the session is set up
+var c13SdpVariants = []string{
+	// 2: AAC announced without fmtp (no config), video of an unknown codec
+	"v=0\r\nm=video 0 RTP/AVP 96\r\na=rtpmap:96 VP8/90000\r\na=control:streamid=0\r\nm=audio 0 RTP/AVP 97\r\na=rtpmap:97 MPEG4-GENERIC/44100/2\r\na=control:streamid=1\r\n",
+	// 3: clock rates of zero
+	"v=0\r\nm=video 0 RTP/AVP 96\r\na=rtpmap:96 H264/0\r\na=fmtp:96 packetization-mode=1\r\na=control:streamid=0\r\nm=audio 0 RTP/AVP 0\r\na=rtpmap:0 PCMU/0\r\na=control:streamid=1\r\n",
+	// 4: static payload types without rtpmap (PCMU by m= line), MP2 audio
+	"v=0\r\nm=audio 0 RTP/AVP 0\r\na=control:streamid=1\r\nm=video 0 RTP/AVP 96\r\na=control:streamid=0\r\n",
+	"v=0\r\nm=audio 0 RTP/AVP 14\r\na=control:streamid=1\r\nm=video 0 RTP/AVP 96\r\na=rtpmap:96 H265/90000\r\na=control:streamid=0\r\n",
+	// 6: Opus, H.264 with empty parameter sets and a negative clock rate on audio
+	"v=0\r\nm=video 0 RTP/AVP 96\r\na=rtpmap:96 H264/90000\r\na=fmtp:96 sprop-parameter-sets=,\r\na=control:streamid=0\r\nm=audio 0 RTP/AVP 111\r\na=rtpmap:111 opus/-48000/2\r\na=control:streamid=1\r\n",
+	// 7: AAC with a config of zeros and a huge clock rate; same control value for both tracks
+	"v=0\r\nm=audio 0 RTP/AVP 97\r\na=rtpmap:97 MPEG4-GENERIC/2147483647/2\r\na=fmtp:97 config=0000\r\na=control:streamid=0\r\nm=video 0 RTP/AVP 96\r\na=rtpmap:96 H264/1\r\na=control:streamid=0\r\n",
+}
+
 // VerifC13Session: RTP / RTCP datagrams and interleaved frames into an RTSP ingest session
 // whose SDP is a concrete well-formed description (AVC+AAC or HEVC+PCMA).
 func VerifC13Session() {
 	text := c13SdpAvcAac
-	if vrt.Param("sdp") == 1 {
+	if v := vrt.Param("sdp"); v == 1 {
 		text = c13SdpHevcPcm
+	} else if v >= 2 {
+		text = c13SdpVariants[v-2]
 	}
 	ctx, err := sdp.ParseSdp2LogicContext([]byte(text))
 	vrt.Assert(err == nil, "harness SDP parses")
